@@ -105,7 +105,8 @@ def make_cases(chk):
             if rng.random() < 0.65:
                 add_dilute(g, rng)
             else:
-                g.fill(target='c', rel=rng.choice([1.2, 1.5, 3, 0.6, 0.9]))
+                rel = rng.choice([1.2, 1.5, 3, 0.6, 0.9, 0.98, 0.995])     # a target just below the current quantity is as unreachable as a far one
+                g.fill(target='c', rel=rel, sig=4 if rel > 0.95 and rel < 1 else 2)
         gens.append(g)
     return gens
 
